@@ -179,6 +179,27 @@ fn splitmix(x: &mut u64) -> u64 {
     z = (z ^ (z >> 27)).wrapping_mul(0x94D0_49BB_1331_11EB);
     z ^ (z >> 31)
 }
+/// committed model-/subject-selected RNG answers for which an intermediate of the test-mode run hits a rare value
+/// (e.g. NTT(c) has a zero coefficient): witnesses/ct_rare_inputs.json, entries {"rng_answers": hex128, "set": id}
+fn rare_inputs(set: u32) -> Vec<([u8; 64], String)> {
+    let root = std::env::var("VERIF_ROOT").unwrap_or_else(|_| "/verif".to_string());
+    let Ok(text) = std::fs::read_to_string(format!("{root}/witnesses/ct_rare_inputs.json")) else { return Vec::new() };
+    let mut out = Vec::new();
+    for (k, obj) in text.split('{').enumerate() {
+        let Some(p) = obj.find("\"rng_answers\": \"") else { continue };
+        let hex: String = obj[p + 16..].chars().take_while(|c| c.is_ascii_hexdigit()).collect();
+        let this_set = obj.find("\"set\": ").map(|q| obj[q + 7..].chars().take_while(|c| c.is_ascii_digit()).collect::<String>()).unwrap_or_default();
+        if hex.len() == 128 && this_set == set.to_string() {
+            let mut d = [0u8; 64];
+            for i in 0..64 {
+                d[i] = u8::from_str_radix(&hex[2 * i..2 * i + 2], 16).unwrap();
+            }
+            out.push((d, format!("rare{k}")));
+        }
+    }
+    out
+}
+
 fn rng_inputs(ncounter: u64, seed: u64) -> Vec<([u8; 64], String)> {
     let mut v: Vec<([u8; 64], String)> = vec![([0u8; 64], "00".into()), ([0xFF; 64], "ff".into()), ([0xAA; 64], "aa".into()), ([0x55; 64], "55".into())];
     for bit in 0..512 {
@@ -316,14 +337,22 @@ fn main() {
     let inputs = rng_inputs(if thorough { 4096 } else { 448 }, seed);
     for (mi, msg) in [&b"m"[..], &[7u8; 200][..]].iter().enumerate() {
         let sub: Vec<([u8; 64], String)> = if mi == 0 { inputs.clone() } else { inputs.iter().step_by(8).cloned().collect() };
+        // the rare-event answers were selected for the 1-byte message "m"
+        let with_rare = |set: u32| -> Vec<([u8; 64], String)> {
+            let mut v = sub.clone();
+            if mi == 0 {
+                v.extend(rare_inputs(set));
+            }
+            v
+        };
         let mut g = Group::new(&format!("pipeline:ml_dsa_44:|M|={}", msg.len()));
-        pipeline!(g, ml_dsa_44, sub, msg);
+        pipeline!(g, ml_dsa_44, with_rare(44), msg);
         g.emit();
         let mut g = Group::new(&format!("pipeline:ml_dsa_65:|M|={}", msg.len()));
-        pipeline!(g, ml_dsa_65, sub, msg);
+        pipeline!(g, ml_dsa_65, with_rare(65), msg);
         g.emit();
         let mut g = Group::new(&format!("pipeline:ml_dsa_87:|M|={}", msg.len()));
-        pipeline!(g, ml_dsa_87, sub, msg);
+        pipeline!(g, ml_dsa_87, with_rare(87), msg);
         g.emit();
     }
     #[cfg(feature = "kernels")]
